@@ -152,6 +152,12 @@ func (c *vconc) val(t vtok) any {
 		switch c.mode {
 		case "big53":
 			return (1 << 53) + t.V // neighbours of 2^53: distinct ints that collapse as float64
+		case "x256":
+			return t.V * 256 // multiples of 256 / 4096 / 2^32: all keys share their low bytes (byte-wise sorts)
+		case "x4096":
+			return t.V * 4096
+		case "x2p32":
+			return t.V << 32
 		case "scale":
 			return t.V << c.shift
 		case "extreme":
@@ -1299,8 +1305,24 @@ func (c *vconc) abs(x any) vtok {
 		}
 		return vtok{"bool", 0}
 	case int:
-		if c.mode == "big53" {
+		switch c.mode {
+		case "big53":
 			return vtok{"int", v - (1 << 53)}
+		case "x256":
+			if v%256 == 0 {
+				return vtok{"int", v / 256}
+			}
+			return vtok{"int", 1 << 40} // not an image of any token: TLC will reject it
+		case "x4096":
+			if v%4096 == 0 {
+				return vtok{"int", v / 4096}
+			}
+			return vtok{"int", 1 << 40}
+		case "x2p32":
+			if v%(1<<32) == 0 {
+				return vtok{"int", v >> 32}
+			}
+			return vtok{"int", 1 << 40}
 		}
 		for k, e := range c.intExt {
 			if e == v {
@@ -1656,6 +1678,10 @@ func cmdViewTrace(args []string) int {
 		emit(pick(ints, n), "big53")
 		emit(pick(flts, n), "id")
 		emit(pick(strs, n), "id")
+		if n >= 200 {
+			emit(pick(ints, n), []string{"x256", "x4096", "x2p32"}[n%3])
+			emit(pick([]vtok{{"int", -2}, {"int", 0}}, n), "extremeAgg") // MinInt and 0 only
+		}
 		if n >= 2 {
 			// ascending run with a small last element; descending run with a big last element; all equal but the last
 			asc := make([]vtok, n)
